@@ -3,7 +3,8 @@
    A geometry is (shape, coordinate system, optional FoR token, unit vectors, spacings, position);
    its affine column j is  spacing_j * unit_j. *)
 From Coq Require Import String ZArith List Bool QArith.
-From HD Require Import Base.Val Base.PySlice C09_Model C09_Proofs C09_Proofs_Match.
+From HD Require Import Base.Val Base.PySlice C09_Model C09_Proofs C09_Proofs_Match C09_Proofs_Voxels C09_Proofs_Sound
+  C09_Proofs_Index.
 Import ListNotations.
 Open Scope Z_scope.
 
@@ -230,3 +231,183 @@ Proof.
   vm_compute. reflexivity.
 Qed.
 Print Assumptions C09_example.
+
+(* ===================================================================================================== *)
+(* 10. soundness at FULL strength, tolerance units explicit (supersedes the _partial statement of (4); the
+       literal clause with the SAME numeric atol stays refuted because match_geometry's tolerances are in
+       voxel / ratio / unit-vector units): on success the result has the target's shape and every entry of
+       its affine is within tol x (target spacing + source spacing) resp. tol x (sum of source spacings)
+       of the target's *)
+Theorem C09_match_sound_within : forall tol g h r,
+  (0 <= tol)%Q -> (3 * tol < 1)%Q -> orthonormal g -> spac_pos g -> spac_pos h ->
+  gpos (g_shape g) -> gpos (g_shape h) ->
+  match_geometry tol g h = Ok r ->
+  is_perm (p0 (m_perm r)) (p1 (m_perm r)) (p2 (m_perm r)) = true /\
+  a_shape (m_geom r) = g_shape h /\
+  (forall d, vwithin (tol * (sel (g_spac h) d + sel (g_spac g) (sel (m_perm r) d)))
+                     (sel (a_cols (m_geom r)) d) (col h d)) /\
+  vwithin (tol * spac_sum g) (a_pos (m_geom r)) (g_pos h).
+Proof. exact match_sound_within. Qed.
+Print Assumptions C09_match_sound_within.
+
+(* ... hence geometry_equal(result, target, tol=T) holds for every T at least that large *)
+Theorem C09_match_sound_geometry_equal : forall tol g h r T,
+  (0 <= tol)%Q -> (3 * tol < 1)%Q -> orthonormal g -> spac_pos g -> spac_pos h ->
+  gpos (g_shape g) -> gpos (g_shape h) ->
+  match_geometry tol g h = Ok r ->
+  (forall d, (tol * (sel (g_spac h) d + sel (g_spac g) (sel (m_perm r) d)) <= T)%Q) ->
+  (tol * spac_sum g <= T)%Q ->
+  geometry_equal (Some T) (ageom_geom (m_geom r) (g_cs g) (g_for g)) h = true.
+Proof. exact match_sound_geometry_equal. Qed.
+Print Assumptions C09_match_sound_geometry_equal.
+
+(* ... and with tol = 0 the result is exactly the target (geometry_equal with tol=None) *)
+Theorem C09_match_sound_exact : forall g h r,
+  orthonormal g -> spac_pos g -> spac_pos h -> gpos (g_shape g) -> gpos (g_shape h) ->
+  match_geometry 0 g h = Ok r ->
+  geometry_equal None (ageom_geom (m_geom r) (g_cs g) (g_for g)) h = true.
+Proof. exact match_sound_exact. Qed.
+Print Assumptions C09_match_sound_exact.
+
+(* 11. success <-> reachable (exact arithmetic): the converse of C09_match_complete *)
+Theorem C09_match_exact_iff_reachable : forall g h,
+  orthonormal g -> spac_pos g -> spac_pos h -> gpos (g_shape g) -> gpos (g_shape h) ->
+  ((exists r, match_geometry 0 g h = Ok r) <->
+   (for_conflict (g_for g) (g_for h) = false /\ g_cs g = g_cs h /\ exists sg k a, reaches g h sg k a)).
+Proof. exact match_exact_iff_reachable. Qed.
+Print Assumptions C09_match_exact_iff_reachable.
+
+Theorem C09_match_exact_reaches : forall g h r,
+  orthonormal g -> spac_pos g -> spac_pos h -> gpos (g_shape g) -> gpos (g_shape h) ->
+  match_geometry 0 g h = Ok r ->
+  for_conflict (g_for g) (g_for h) = false /\ g_cs g = g_cs h /\
+  exists k a, reaches g h (m_perm r) k a /\ r = assemble g (m_perm r) (res3 (g_shape h) a k).
+Proof. exact match_exact_reaches. Qed.
+Print Assumptions C09_match_exact_reaches.
+
+(* 12. the voxel ARRAY (no longer model glue): flat index (j0,j1,j2) of the result holds the label of the
+       source voxel (place sg c) when every per-axis source coordinate c_d = first_d + j_d step_d is inside
+       the source, the padding value 0 otherwise; the array has prod(sizes) entries *)
+Theorem C09_match_voxel_array : forall g sg rs j0 j1 j2,
+  0 <= j0 < r_size (p0 rs) -> 0 <= j1 < r_size (p1 rs) -> 0 <= j2 < r_size (p2 rs) ->
+  voxel_at (g_shape g) (assemble g sg rs) j0 j1 j2 =
+  (if inb (sel (g_shape g) (p0 sg)) (coord rs X0 j0) && inb (sel (g_shape g) (p1 sg)) (coord rs X1 j1) &&
+      inb (sel (g_shape g) (p2 sg)) (coord rs X2 j2)
+   then src_label (g_shape g) (place sg (coord rs X0 j0) (coord rs X1 j1) (coord rs X2 j2)) else 0).
+Proof. exact assemble_voxel. Qed.
+Print Assumptions C09_match_voxel_array.
+
+Theorem C09_match_voxel_array_length : forall g sg rs,
+  0 <= r_size (p0 rs) -> 0 <= r_size (p1 rs) -> 0 <= r_size (p2 rs) ->
+  Z.of_nat (length (voxels (g_shape g) (assemble g sg rs))) = r_size (p0 rs) * r_size (p1 rs) * r_size (p2 rs).
+Proof. exact assemble_voxels_length. Qed.
+Print Assumptions C09_match_voxel_array_length.
+
+(* "its voxels coincide with the source wherever the two overlap (padding elsewhere)", physically: *)
+Theorem C09_match_voxels_coincide : forall g sg rs j0 j1 j2,
+  is_perm (p0 sg) (p1 sg) (p2 sg) = true -> ~ (det (geom_aff g) == 0)%Q ->
+  0 <= j0 < r_size (p0 rs) -> 0 <= j1 < r_size (p1 rs) -> 0 <= j2 < r_size (p2 rs) ->
+  let x := aphys (m_geom (assemble g sg rs)) (zvec (T3 j0 j1 j2)) in
+  let v := voxel_at (g_shape g) (assemble g sg rs) j0 j1 j2 in
+  (forall i, in_shape (g_shape g) i -> veq x (phys (geom_aff g) (zvec i)) -> v = src_label (g_shape g) i) /\
+  ((forall i, in_shape (g_shape g) i -> ~ veq x (phys (geom_aff g) (zvec i))) -> v = 0).
+Proof. exact match_voxels_coincide. Qed.
+Print Assumptions C09_match_voxels_coincide.
+
+(* 13. END TO END - the property sentence about match_geometry in one statement *)
+Theorem C09_match_end_to_end : forall tol g h r,
+  (0 <= tol)%Q -> (3 * tol < 1)%Q -> orthonormal g -> spac_pos g -> spac_pos h ->
+  gpos (g_shape g) -> gpos (g_shape h) ->
+  match_geometry tol g h = Ok r ->
+  a_shape (m_geom r) = g_shape h /\
+  (forall T, (forall d, (tol * (sel (g_spac h) d + sel (g_spac g) (sel (m_perm r) d)) <= T)%Q) ->
+             (tol * spac_sum g <= T)%Q ->
+             geometry_equal (Some T) (ageom_geom (m_geom r) (g_cs g) (g_for g)) h = true) /\
+  (forall j0 j1 j2, 0 <= j0 < p0 (g_shape h) -> 0 <= j1 < p1 (g_shape h) -> 0 <= j2 < p2 (g_shape h) ->
+     let x := aphys (m_geom r) (zvec (T3 j0 j1 j2)) in
+     let v := voxel_at (g_shape g) r j0 j1 j2 in
+     (forall i, in_shape (g_shape g) i -> veq x (phys (geom_aff g) (zvec i)) -> v = src_label (g_shape g) i) /\
+     ((forall i, in_shape (g_shape g) i -> ~ veq x (phys (geom_aff g) (zvec i))) -> v = 0)).
+Proof. exact match_end_to_end. Qed.
+Print Assumptions C09_match_end_to_end.
+
+Theorem C09_match_exact_end_to_end : forall g h,
+  orthonormal g -> spac_pos g -> spac_pos h -> gpos (g_shape g) -> gpos (g_shape h) ->
+  let reachable := for_conflict (g_for g) (g_for h) = false /\ g_cs g = g_cs h /\
+                   exists sg k a, reaches g h sg k a in
+  (reachable -> exists r, match_geometry 0 g h = Ok r /\
+                 geometry_equal None (ageom_geom (m_geom r) (g_cs g) (g_for g)) h = true) /\
+  (~ reachable -> exists e, match_geometry 0 g h = Err e).
+Proof. exact match_exact_end_to_end. Qed.
+Print Assumptions C09_match_exact_end_to_end.
+
+(* non-vacuity of (10)-(13): oblique source, permuted/flipped/strided/padded target shifted by tol/4 *)
+Example C09_match_sound_example :
+  orthonormal snd_src /\ spac_pos snd_src /\ spac_pos snd_tgt /\
+  exists r, match_geometry (1 # 100000) snd_src snd_tgt = Ok r /\
+    geometry_equal None (ageom_geom (m_geom r) 0 (Some 1)) snd_tgt = false /\
+    (forall d, ((1 # 100000) * (sel (g_spac snd_tgt) d + sel (g_spac snd_src) (sel (m_perm r) d)) <= 4 # 100000)%Q) /\
+    ((1 # 100000) * spac_sum snd_src <= 4 # 100000)%Q /\
+    geometry_equal (Some (4 # 100000)%Q) (ageom_geom (m_geom r) 0 (Some 1)) snd_tgt = true /\
+    voxel_at (g_shape snd_src) r 0 1 1 = 24 /\ voxel_at (g_shape snd_src) r 2 0 0 = 0.
+Proof. exact match_sound_example. Qed.
+Print Assumptions C09_match_sound_example.
+
+(* 14. "... or refuses": REFUTED as to the exception class - a stride that rounds to 0 is not refused with
+       RuntimeError but fails later with ValueError (finding reported; replayed on the real code) *)
+Theorem C09_refusal_class_refuted :
+  exists g h, orthonormal g /\ orthonormal h /\ spac_pos g /\ spac_pos h /\ gpos (g_shape g) /\ gpos (g_shape h) /\
+    match_geometry (1 # 100000) g h = Err VE.
+Proof. exact refusal_class_refuted. Qed.
+Print Assumptions C09_refusal_class_refuted.
+
+(* 15. pad options of match_geometry (mode, constant_value): same geometry pipeline ... *)
+Theorem C09_match_rs_refines : forall tol g h,
+  match_geometry tol g h = bind (match_rs tol g h) (fun pr => Ok (assemble g (fst pr) (snd pr))).
+Proof. exact match_rs_refines. Qed.
+Print Assumptions C09_match_rs_refines.
+
+(* ... CONSTANT / MINIMUM / MAXIMUM / MEAN / MEDIAN: the source voxel where there is one, else the pad value *)
+Theorem C09_voxel_mode_const : forall mode cval g sg rs j0 j1 j2, mode <> PEdge ->
+  0 <= j0 < r_size (p0 rs) -> 0 <= j1 < r_size (p1 rs) -> 0 <= j2 < r_size (p2 rs) ->
+  voxel_mode_at mode cval g sg rs j0 j1 j2 =
+  (if inb (sel (g_shape g) (p0 sg)) (coord rs X0 j0) && inb (sel (g_shape g) (p1 sg)) (coord rs X1 j1) &&
+      inb (sel (g_shape g) (p2 sg)) (coord rs X2 j2)
+   then inject_Z (src_label (g_shape g) (place sg (coord rs X0 j0) (coord rs X1 j1) (coord rs X2 j2)))
+   else pad_value mode (g_shape g) cval).
+Proof. exact voxel_mode_const. Qed.
+Print Assumptions C09_voxel_mode_const.
+
+Theorem C09_voxel_mode_default : forall g sg rs j0 j1 j2,
+  0 <= j0 < r_size (p0 rs) -> 0 <= j1 < r_size (p1 rs) -> 0 <= j2 < r_size (p2 rs) ->
+  voxel_mode_at PConst 0 g sg rs j0 j1 j2 = inject_Z (voxel_at (g_shape g) (assemble g sg rs) j0 j1 j2).
+Proof. exact voxel_mode_default. Qed.
+Print Assumptions C09_voxel_mode_default.
+
+(* ... EDGE: the source voxel nearest along each axis (overlap untouched, never a foreign value) *)
+Theorem C09_voxel_mode_edge : forall cval g sg rs j0 j1 j2, gpos (g_shape g) ->
+  is_perm (p0 sg) (p1 sg) (p2 sg) = true ->
+  0 <= j0 < r_size (p0 rs) -> 0 <= j1 < r_size (p1 rs) -> 0 <= j2 < r_size (p2 rs) ->
+  let i := place sg (clampc (sel (g_shape g) (p0 sg)) (coord rs X0 j0))
+                    (clampc (sel (g_shape g) (p1 sg)) (coord rs X1 j1))
+                    (clampc (sel (g_shape g) (p2 sg)) (coord rs X2 j2)) in
+  in_shape (g_shape g) i /\
+  voxel_mode_at PEdge cval g sg rs j0 j1 j2 = inject_Z (src_label (g_shape g) i).
+Proof. exact voxel_mode_edge. Qed.
+Print Assumptions C09_voxel_mode_edge.
+
+(* 16. the transformer agrees with the route through physical space (map_indices_to_reference, then
+       map_reference_to_indices), bounds checks included *)
+Theorem C09_v2v_agrees_with_physical_route : forall A B shape check pts, ~ (det B == 0)%Q ->
+  agree (v2v A B shape false check pts) (ref2idx B shape false check (idx2ref A pts)) /\
+  (forall e, v2v A B shape false check pts = Err e -> e = VE /\ check = true) /\
+  (forall e, ref2idx B shape false check (idx2ref A pts) = Err e ->
+             check = true /\ (e = RT \/ pts = [] /\ e = VE)).
+Proof. exact v2v_agrees_with_physical_route. Qed.
+Print Assumptions C09_v2v_agrees_with_physical_route.
+
+Theorem C09_v2v_rounded_agrees_with_physical_route : forall A B shape check pts, ~ (det B == 0)%Q ->
+  (forall l, v2v A B shape true check pts = Ok l -> ref2idx B shape true check (idx2ref A pts) = Ok l) /\
+  (forall e, ref2idx B shape true check (idx2ref A pts) = Err e -> exists e', v2v A B shape true check pts = Err e').
+Proof. exact v2v_rounded_agrees_with_physical_route. Qed.
+Print Assumptions C09_v2v_rounded_agrees_with_physical_route.
